@@ -98,6 +98,7 @@ func TopoSort(evs []Ev) []Ev {
 type Outcome struct {
 	Events map[string]EvOut
 	Fame   map[int]map[string]int // round → witness → 1 famous / 2 not famous (decided only)
+	Decided map[int]bool          // round → its fame election is closed (RoundInfo.decided)
 	Frames map[int]string         // round → frame hash
 	Blocks []string               // body digests in delivery order
 	BlockD []string
@@ -255,6 +256,10 @@ func Run(events []Ev, o RunOpts) *Outcome {
 			}
 		}
 		out.Fame[r] = fm
+		if out.Decided == nil {
+			out.Decided = map[int]bool{}
+		}
+		out.Decided[r] = ri.VDecided()
 		if f, err := store.GetFrame(r); err == nil {
 			if hb, err := f.Hash(); err == nil {
 				out.Frames[r] = hex.EncodeToString(hb[:8])
@@ -322,10 +327,19 @@ func Compare(ref, v *Outcome, sameSet bool) string {
 			return fmt.Sprintf("event %s: round-received %d decided in the reference, undecided in the variant", k[:10], a.RR)
 		}
 	}
+	// Fame. Once a round's election is closed, a witness that arrives later is never voted on: its
+	// fame stays "undefined" on that instance and it is never famous ("a witness that is not yet known
+	// when a super-majority of witnesses are already decided has no chance of ever being famous").
+	// For closed rounds undefined therefore counts as not famous; the closing itself must agree.
 	for r, fm := range v.Fame {
 		rf := ref.Fame[r]
+		closed := ref.Decided[r] && v.Decided[r]
 		for w, f := range fm {
-			if g, ok := rf[w]; ok && g != f {
+			g, ok := rf[w]
+			if !ok && closed {
+				g, ok = 2, true
+			}
+			if ok && g != f {
 				return fmt.Sprintf("round %d witness %s: fame %d vs %d", r, w[:10], g, f)
 			} else if !ok {
 				return fmt.Sprintf("round %d witness %s: fame decided (%d) in the variant only", r, w[:10], f)
@@ -333,9 +347,19 @@ func Compare(ref, v *Outcome, sameSet bool) string {
 		}
 		if sameSet {
 			for w, g := range rf {
-				if _, ok := fm[w]; !ok {
+				f, ok := fm[w]
+				if !ok && closed {
+					f, ok = 2, true
+				}
+				if !ok {
 					return fmt.Sprintf("round %d witness %s: fame decided (%d) in the reference only", r, w[:10], g)
 				}
+				if f != g {
+					return fmt.Sprintf("round %d witness %s: fame %d vs %d", r, w[:10], g, f)
+				}
+			}
+			if ref.Decided[r] != v.Decided[r] {
+				return fmt.Sprintf("round %d: fame election closed in one run only (reference %v, variant %v)", r, ref.Decided[r], v.Decided[r])
 			}
 		}
 	}
@@ -487,6 +511,10 @@ func (in *Inst) Outcome(events []Ev) *Outcome {
 			}
 		}
 		out.Fame[r] = fm
+		if out.Decided == nil {
+			out.Decided = map[int]bool{}
+		}
+		out.Decided[r] = ri.VDecided()
 		if f, err := store.GetFrame(r); err == nil {
 			if hb, err := f.Hash(); err == nil {
 				out.Frames[r] = hex.EncodeToString(hb[:8])
